@@ -44,6 +44,16 @@ def canonical_fields(rng, quick):
     out.append(("typedef-i64-own", "default", dict(T("enum"), gotype="MyI64", ann="MyI64")))
     out.append(("list-typedef-i32", "default", L(dict(T("i32"), gotype="MyI32", ann="MyI32"))))
     out.append(("map-typedef", "default", M(dict(T("string"), gotype="MyStr", ann="MyStr"), dict(T("enum"), gotype="MyI64", ann="MyI64"))))
+    # enums behind pointers (sign extension of negative values on decode)
+    out.append(("opt-enum", "optional", T("enum", True)))
+    out.append(("opt-typedef-enum", "optional", dict(T("enum", True), gotype="*MyI64", ann="MyI64")))
+    # identifiers with underscores: struct, typedef, enum
+    out.append(("struct-underscore", "default", ST("Leaf_u", True)))
+    out.append(("list-struct-underscore", "default", L(ST("Leaf_u", True))))
+    out.append(("map-struct-underscore", "default", M(T("string"), ST("Leaf_u", True))))
+    out.append(("typedef-underscore", "default", dict(T("string"), gotype="My_Str", ann="My_Str")))
+    out.append(("enum-underscore", "default", dict(T("enum"), gotype="My_Enum", ann="My_Enum")))
+    out.append(("list-enum-underscore", "default", L(dict(T("enum"), gotype="My_Enum", ann="My_Enum"))))
     out.append(("opt-i32", "optional", T("i32", True)))
     out.append(("opt-string", "optional", T("string", True)))
     out.append(("req-i64", "required", T("i64")))
@@ -89,7 +99,9 @@ def annot_variants(t, rng):
     if "Leaf" in base:
         out.append(("qualified", base.replace("Leaf", "pkg.Leaf")))
         out.append(("qualified-sp", base.replace("Leaf", "base . Leaf")))
-    for nm in ("Enum", "MyI64", "MyI32", "MyStr", "MyBool", "MyF64", "MyI8"):
+    if "Leaf_u" in base:
+        out.append(("qualified-underscore", base.replace("Leaf_u", "my_pkg.Leaf_u")))
+    for nm in ("Enum", "MyI64", "MyI32", "MyStr", "MyBool", "MyF64", "MyI8", "My_Str", "My_Enum"):
         # package-qualified enum / typedef names
         import re
         if re.search(r"\b%s\b" % nm, base):
@@ -133,6 +145,7 @@ def spell(fid, req, t, label, rng):
         out.append(mk(ftag=",".join(parts)))
         out.append(mk(ttag=",".join(["wireName"] + parts), sl="+thrift"))
         out.append(mk(ftag=" , ".join(parts) + " ", sl="+commasp"))
+        out.append(mk(ttag=" , ".join(["wireName"] + parts) + " ", sl="+thrift-commasp"))
         if al == "canon":
             out.append(mk(ftag=",".join(parts), ttag="other,%d,required,string" % ((fid + 7) % 65536), sl="+both"))
             out.append(mk(ftag=",".join(["00" + str(fid)] + parts[1:]), sl="+zeros"))
@@ -153,6 +166,7 @@ EXTRA_MEMBERS = ["Untagged int32", "unexported int32 `frugal:\"900,default,i32\"
 
 def build_universe(rng, quick):
     defs = U.leaf_structs()
+    defs["Leaf_u"] = struct([field(1, "default", T("i32")), field(2, "optional", T("string", True))])
     entries = {}     # struct name -> canonical sorted fields
     cf = canonical_fields(rng, quick)
     n = 0
